@@ -106,12 +106,23 @@ def run(case, ctx):
             state = {}
             toks = []
             try:
+                chunks = []
                 for bars in zip(*tb):
-                    toks += tok.tokenise([b.sequence.copy() for b in bars], state_dict=state)
+                    chunks.append(tok.tokenise([b.sequence.copy() for b in bars], state_dict=state))
+                    toks += chunks[-1]
                 toks2 = tok.tokenise([Bar.to_sequence([b.copy() for b in trk]) for trk in tb])
                 LOG.n("c11.tokenised")
                 hold.append(tok.detokenise(toks))
                 hold.append(tok.detokenise(toks2))
+                # token streams that no single tokenise call produced: each bar's tokens on their own (with running values a bar
+                # may open with a pitch token that no value / velocity token precedes), and the second half of the stream
+                for ch in chunks[1:4]:
+                    hold.append(tok.detokenise(list(ch)))
+                    LOG.n("c11.detokenised_partial_stream")
+                if len(toks) >= 4:
+                    hold.append(tok.detokenise(toks[len(toks) // 2:]))
+                    hold.append(tok.get_info(toks[len(toks) // 2:]))
+                    LOG.n("c11.detokenised_partial_stream")
                 # the same notes as plain sequences without any signature message: the tokeniser's default signature is in
                 # force and no signature token opens the stream (default versus the same value passed explicitly)
                 plain = [gen.build_seq({"notes": t["notes"], "extra": [], "pad": -(-max(1, gen.end_of(t)) // 96) * 96}) for t in pc["tracks"]]
